@@ -24,6 +24,13 @@ def qmag(v):
     return v.val if isinstance(v, Qty) else v
 
 
+def _ite_chain(j, items):
+    out = items[-1]
+    for k in range(len(items) - 2, -1, -1):
+        out = V.Ite(V.eq(j, k), items[k], out)
+    return out
+
+
 def _free_vars(t):
     out, todo, seen = set(), [t], set()
     while todo:
@@ -351,6 +358,12 @@ class StubsLib(StubsBase):
             return Stub(lambda c, *a, **k: STime(t.sec, t.fmt, t.precision), "Time.copy")
         if name in ("format", "precision"):
             return t.fmt if name == "format" else t.precision
+        if name == "scale":
+            return "utc"
+        if name in ("utc", "tai", "tt", "tdb", "tcb", "tcg", "ut1"):
+            # an STime denotes an instant; re-expressing it in another time scale does not change the instant
+            ctx.note("model: Time scales not modelled (an STime is an instant; .mjd is that of one common scale)")
+            return t
         raise PyExc("AttributeError", f"Time has no attribute {name}")
 
     # ================================================================== numpy
@@ -393,6 +406,7 @@ class StubsLib(StubsBase):
             "s_": NS("np.s_", {}),
             "matmul": NS("ufunc:matmul", {"nin": 2, "nout": 1}),
             "searchsorted": Stub(self.np_searchsorted, "np.searchsorted"),
+            "argsort": Stub(self.np_argsort, "np.argsort"),
             "isclose": Stub(self.np_isclose, "np.isclose"),
             "abs": Stub(lambda c, x: self.b_abs(c, x), "np.abs"),
             "absolute": Stub(lambda c, x: self.b_abs(c, x), "np.absolute"),
@@ -614,12 +628,39 @@ class StubsLib(StubsBase):
             return self.forall_elems(ctx, r, lambda e: e, "allclose")
         return V.simp(f(a, b))
 
-    def np_searchsorted(self, ctx, a, v, side="left"):
+    def np_argsort(self, ctx, a, axis=-1, kind=None):
+        """np.argsort of a 1-d array of concrete length: the permutation is found by forking on comparisons
+        (stable insertion sort), so it is concrete on each path and the ordering facts are on the path."""
+        if isinstance(a, Qty):
+            a = a.val
+        if not isinstance(a, SArr) or a.ndim != 1 or is_sym(a.shape[0]):
+            raise Unsupported("np.argsort operand")
+        ctx.note("stub:np.argsort (1-d, concrete length) by forking on comparisons")
+        order = []
+        for i in range(a.shape[0]):
+            pos = len(order)
+            for j, o in enumerate(order):
+                if ctx.branch(V.lt(a.elem((i,)), a.elem((o,))), "argsort"):
+                    pos = j
+                    break
+            order.insert(pos, i)
+        items = list(order)
+        return SArr((len(items),), lambda ix: items[ix[0]] if not is_sym(ix[0]) else _ite_chain(ix[0], items), DType("int64"))
+
+    def np_searchsorted(self, ctx, a, v, side="left", sorter=None):
         """np.searchsorted(a, v) for a *sorted* 1-d array of concrete length: number of elements < v."""
         ctx.note("stub:np.searchsorted(sorted a, v, 'left') = #{i: a[i] < v}")
         if not isinstance(a, SArr) or a.ndim != 1 or is_sym(a.shape[0]):
             raise Unsupported("searchsorted operand")
         n = a.shape[0]
+        if sorter is not None:
+            if not isinstance(sorter, SArr) or sorter.ndim != 1 or is_sym(sorter.shape[0]):
+                raise Unsupported("searchsorted sorter")
+            perm = [sorter.elem((i,)) for i in range(n)]
+            if any(is_sym(p_) for p_ in perm):
+                raise Unsupported("searchsorted with a symbolic sorter")
+            src = a
+            a = SArr((n,), lambda ix: src.elem((perm[ix[0]],)) if not is_sym(ix[0]) else _ite_chain(ix[0], [src.elem((p_,)) for p_ in perm]), src.dtype)
         for i in range(n - 1):
             ctx.oblige("np.searchsorted.argument-sorted", V.le(a.elem((i,)), a.elem((i + 1,))), "safety")
 
